@@ -49,14 +49,14 @@ def configs(tier):
         lengths = [7]
         params = {True: ['0.05'], False: ['1.5']}
         fees = [['zero'], ['pct', '0.001', '0.0005']]
-        cashes = ['10007.31']
+        cashes = ['10007.31', '270.05']   # the small one makes targets toggle between 0 and 1 share
     else:
         modes = [(True, w) for w in LONG_ONLY_W] + [(False, w) for w in LONG_ONLY_W + SIGNED_W]
         times = ['00:00', '14:30']
         lengths = [4, 7, 10]
         params = {True: ['0', '0.05'], False: ['1', '1.5']}
         fees = [['zero'], ['pct', '0.001', '0.0005']]
-        cashes = ['10007.31', '123456.78']
+        cashes = ['10007.31', '123456.78', '270.05']
     for long_only, w in modes:
         n = len(w)
         for shapes in markets_for(n, tier):
@@ -152,6 +152,24 @@ def per_market(item):
     outs = set()
     try:
         market = market_of(item)
+        # "for any market data": another market with the same symbols and dates has been traded in this
+        # process before (its own data source objects) - prices must still come from this session's data
+        n_assets = len(item['weights'])
+        d2 = scratch_dir('qsc08d-')
+        try:
+            decoy = sl.make_market(MARKET_DAYS, {s: ('flat', '7.77') for s in sl.SYMS[:n_assets]})
+            sl.write_market(d2, decoy)
+            h2, _ = sl.load_handler(d2, decoy)
+            first = next(iter(session_cfgs(item)))
+            num = dict(first, cash=float(Fraction(first['cash'])))
+            num['alpha'] = {'kind': 'fixed', 'weights': {a: float(Fraction(w)) for a, w in first['alpha']['weights'].items()}}
+            for k in ('buffer', 'leverage'):
+                if k in num:
+                    num[k] = float(Fraction(num[k]))
+            num['rebalance'], num['weekday'] = 'daily', None
+            sl.run_session(num, h2)
+        finally:
+            shutil.rmtree(d2, ignore_errors=True)
         sl.write_market(d, market)
         handler, _ = sl.load_handler(d, market)
         for cfg in session_cfgs(item):
